@@ -176,7 +176,7 @@ fn case_strategy(entry: &'static str, thorough: bool) -> impl Strategy<Value = C
     let raw = prop_oneof![
         3 => proptest::collection::vec(any::<u8>(), 0..64).prop_map(|v| Input::Raw(Bytes(v))),
         2 => "[ -~]{0,80}".prop_map(|s| Input::Raw(Bytes(s.into_bytes()))),
-        2 => proptest::collection::vec(prop::sample::select(vec!["{", "}", "[", "]", "\"", ":", ",", "-", "\\", "é", " ", "\r\n", "\n", "1", "e", ".", "null", "true", "a", "=", ";", "/", "%", "[[", "]]", "--", "\u{0}", "bytes", "HTTP/1.1", "200", "OK"]), 0..40).prop_map(|v| Input::Raw(Bytes(v.concat().into_bytes()))),
+        2 => proptest::collection::vec(prop::sample::select(vec!["{", "}", "[", "]", "\"", ":", ",", "-", "\\", "é", " ", "\r\n", "\n", "1", "e", ".", "null", "true", "a", "=", ";", "/", "%", "[[", "]]", "--", "\u{0}", "bytes", "HTTP/1.1", "200", "OK", "Ã©", "Ã", "©", "ÿ", "\u{80}", "Â£", "T", "W", "="]), 0..40).prop_map(|v| Input::Raw(Bytes(v.concat().into_bytes()))),
     ];
     let nest = (prop::sample::select(vec![("[", "]", "1"), ("{\"a\":", "}", "1"), ("[{\"a\":", "}]", "[]"), ("[[", "]]", "x"), ("(", ")", ""), ("\"", "\"", "x"), ("{", "}", "")]), prop_oneof![3 => 1u32..50, 2 => 50u32..2000, 1 => 2000u32..=max_depth])
         .prop_map(|((o, c, i), depth)| Input::Nest { open: o.to_string(), close: c.to_string(), inner: i.to_string(), depth });
